@@ -64,6 +64,18 @@ def run(ctx, deps=True):
         related = [show_fact(f) for f in p.facts if f[0] in ("eq", "ne", "cmp") and mentions(f, tv) and mentions(f, uv)]
         note("R3|version", ok, "accepting paths %s new.version == trusted.version + 1" % ("all established" if ok else "exist that did not establish"), {"version comparisons on the path": related})
         calls = call_events(p, VSIG)
+        # (terms are compared modulo what the path has established to equal a constant: a role
+        # looked up under metadata['signed']['type'] after that was found to be 'root')
+        from sa.terms import is_const, subst
+
+        eqmap = {}
+        for f in st.closure():
+            if f[0] == "eq" and is_const(f[2]) and not is_const(f[1]) and f[1][0] in ("sub", "attr"):
+                eqmap.setdefault(f[1], f[2])
+            elif f[0] == "eq" and is_const(f[1]) and not is_const(f[2]) and f[2][0] in ("sub", "attr"):
+                eqmap.setdefault(f[2], f[1])
+        if eqmap:
+            calls = [ev[:3] + (tuple(subst(a, eqmap) for a in ev[3]),) + ev[4:] for ev in calls]
         for who, (K, th) in pairs.items():
             hit = [ev for ev in calls if len(ev[3]) >= 4 and ev[3][0] == U and ev[3][1] == K and ev[3][2] == th and ev[3][3] == C(True)]
             near = [("verify_signable(%s)" % ", ".join(show(a) for a in ev[3])) for ev in calls]
@@ -127,7 +139,16 @@ def _cause(eng, p, x, T, U, tv, uv, pairs):
     if refuted_at_defaults(eng, "authentication.verify_root", (T[1], U[1]), set(p.facts) | set(x.conds)):
         return "an optional parameter outside the documented signature has a non-default value"
     top = x.chain[0]
-    facts = p.facts
+    facts = set(p.facts) | set(x.conds)
+    # (modulo what the path has established to equal a constant)
+    from sa.terms import is_const, subst
+
+    eqmap = {}
+    for f in State(facts=facts).closure():
+        if f[0] == "eq" and is_const(f[2]) and not is_const(f[1]) and f[1][0] in ("sub", "attr"):
+            eqmap.setdefault(f[1], f[2])
+    if eqmap:
+        facts = facts | {subst(f, eqmap) for f in facts if f[0] in ("has", "nothas", "ne", "eq")}
     st = State(facts=facts)
     if x.origin == "explicit" and all(own_site(eng, st_, "authentication.verify_root") for st_ in x.chain):
         for X, who in ((T, "trusted"), (U, "new")):
@@ -147,7 +168,7 @@ def _cause(eng, p, x, T, U, tv, uv, pairs):
                 return "well-formedness of the %s root" % ("trusted" if ev[3][0] == T else "new")
             if ev[2] == VSIG and len(ev[3]) >= 4 and ev[3][0] == U and ev[3][3] == C(True):
                 for who, (K, th) in pairs.items():
-                    if ev[3][1] == K and ev[3][2] == th:
+                    if subst(ev[3][1], eqmap) == K and subst(ev[3][2], eqmap) == th:
                         return "signatures meet the %s root's keys/threshold" % who
     # an implicit error: explained iff some clause is not (yet) established on this path
     from . import cond_roots
